@@ -1,4 +1,5 @@
 mod daemon;
+mod build;
 mod fakecli;
 mod frame;
 mod fuzz;
@@ -50,6 +51,7 @@ fn main() {
         "daemon" => daemon::main(&opts),
         "ser" => ser::main(&opts),
         "plan" => plan::main(&opts),
+        "build" => build::main(&opts),
         _ => {
             eprintln!("unknown op {op}");
             std::process::exit(2);
